@@ -274,11 +274,17 @@ class FileInspector(abc.ABC):
         self.post_process()
 
         # Check to see if the post-read processing added new regions
-        # which may require the current chunk.
-        new_regions = set(self._capture_regions.values()) - pre_regions
-        if new_regions:
+        # which may require the current chunk. Those regions may complete
+        # within this very chunk and in turn reveal further regions located
+        # in it, so keep going until post-processing adds nothing new.
+        known_regions = pre_regions
+        new_regions = set(self._capture_regions.values()) - known_regions
+        while new_regions:
+            known_regions = set(self._capture_regions.values())
             self._capture(chunk, only=[self.region_name(r)
                                        for r in new_regions])
+            self.post_process()
+            new_regions = set(self._capture_regions.values()) - known_regions
 
         post_complete = {region for region in self._capture_regions.values()
                          if region.complete}
